@@ -647,8 +647,14 @@ def boolean_rows(a, b, operation=np.intersect1d):
     --------
     shared: (p, d) array containing rows in both a and b
     """
-    a = np.asanyarray(a, dtype=np.int64)
-    b = np.asanyarray(b, dtype=np.int64)
+    a = np.asanyarray(a)
+    b = np.asanyarray(b)
+    # unsigned values above 2**63 would wrap around to negative rows
+    unsigned = a.dtype.kind == "u" and b.dtype.kind == "u"
+    dtype = np.uint64 if unsigned else np.int64
+    # the structured view below needs rows which are contiguous in memory
+    a = np.ascontiguousarray(a, dtype=dtype)
+    b = np.ascontiguousarray(b, dtype=dtype)
 
     av = a.view([("", a.dtype)] * a.shape[1]).ravel()
     bv = b.view([("", b.dtype)] * b.shape[1]).ravel()
